@@ -319,10 +319,10 @@ Qed.
 Definition nonfinite (r : cell * cell) : Prop := fst r = None \/ snd r = None.
 
 (* a row with a NaN / infinite cell never influences the metrics *)
-Lemma baseline_ignores_nonfinite : forall a r b p mn, nonfinite r ->
-  baseline_of_rows (a ++ r :: b) p mn = baseline_of_rows (a ++ b) p mn.
+Lemma baseline_ignores_nonfinite : forall pl a r b p mn, nonfinite r ->
+  baseline_of_rows_p pl (a ++ r :: b) p mn = baseline_of_rows_p pl (a ++ b) p mn.
 Proof.
-  intros a [o q] b p mn [H|H]; cbn in H; subst; unfold baseline_of_rows;
+  intros pl a [o q] b p mn [H|H]; cbn in H; subst; unfold baseline_of_rows_p;
     rewrite !finite_pairs_app; cbn [finite_pairs]; [reflexivity|destruct o; reflexivity].
 Qed.
 
@@ -330,16 +330,16 @@ Lemma measured_rows_app : forall a b, measured_rows (a ++ b) = measured_rows a +
 Proof. intros. unfold measured_rows. rewrite filter_app, map_app. reflexivity. Qed.
 
 (* an interpolated hour never influences the stored baseline metrics *)
-Lemma hourly_ignores_interpolated : forall a o q b p mn,
-  hourly_baseline_metrics (a ++ (o, q, true) :: b) p mn = hourly_baseline_metrics (a ++ b) p mn.
+Lemma hourly_ignores_interpolated : forall pl a o q b p mn,
+  hourly_baseline_metrics_p pl (a ++ (o, q, true) :: b) p mn = hourly_baseline_metrics_p pl (a ++ b) p mn.
 Proof.
-  intros. unfold hourly_baseline_metrics. rewrite !measured_rows_app.
+  intros. unfold hourly_baseline_metrics_p. rewrite !measured_rows_app.
   unfold measured_rows at 2. cbn [filter snd negb]. reflexivity.
 Qed.
 
-Lemma hourly_measured_only : forall rows rows' p mn, measured_rows rows = measured_rows rows' ->
-  hourly_baseline_metrics rows p mn = hourly_baseline_metrics rows' p mn.
-Proof. intros. unfold hourly_baseline_metrics. rewrite H. reflexivity. Qed.
+Lemma hourly_measured_only : forall pl rows rows' p mn, measured_rows rows = measured_rows rows' ->
+  hourly_baseline_metrics_p pl rows p mn = hourly_baseline_metrics_p pl rows' p mn.
+Proof. intros. unfold hourly_baseline_metrics_p. rewrite H. reflexivity. Qed.
 
 Lemma measured_rows_in : forall rows o q, In (o, q) (measured_rows rows) <-> In (o, q, false) rows.
 Proof.
@@ -352,38 +352,39 @@ Qed.
 (* ------------------------------------------------------------------ identities of BaselineMetrics *)
 
 Section Baseline.
+  Variable pl : policy.
   Variable d : list (Q * Q).
   Variable p : Z.
   Variable mn : Q.
   Hypothesis Hd : d <> [].
-  Let m := baseline d p mn.
+  Let m := baseline_p pl d p mn.
 
   Lemma n_pos : 0 < inject_Z (b_n m).
   Proof.
-    unfold m, baseline. cbn [b_n]. replace 0 with (inject_Z 0) by reflexivity. rewrite <- Zlt_Qlt.
+    unfold m, baseline_p. cbn [b_n]. replace 0 with (inject_Z 0) by reflexivity. rewrite <- Zlt_Qlt.
     apply zlen_pos. exact Hd.
   Qed.
 
   Lemma n_mse_sse : inject_Z (b_n m) * b_mse m == b_sse m.
   Proof.
-    pose proof n_pos as Hn. unfold m, baseline in *. cbn [b_n b_mse b_sse] in *.
+    pose proof n_pos as Hn. unfold m, baseline_p in *. cbn [b_n b_mse b_sse] in *.
     rewrite Qred_correct. field. lra.
   Qed.
 
   Lemma ddof_pos : 0 < inject_Z (b_ddof m).
   Proof.
-    unfold m, baseline. cbn [b_ddof]. replace 0 with (inject_Z 0) by reflexivity. rewrite <- Zlt_Qlt.
+    unfold m, baseline_p. cbn [b_ddof]. replace 0 with (inject_Z 0) by reflexivity. rewrite <- Zlt_Qlt.
     pose proof (ddof_ge_1 (zlen d) p). lia.
   Qed.
 
   Lemma ddof_rmse_adj_sse : inject_Z (b_ddof m) * b_rmse_adj_sq m == b_sse m.
   Proof.
-    pose proof ddof_pos as Hn. unfold m, baseline in *. cbn [b_ddof b_rmse_adj_sq b_sse] in *.
+    pose proof ddof_pos as Hn. unfold m, baseline_p in *. cbn [b_ddof b_rmse_adj_sq b_sse] in *.
     rewrite Qred_correct. field. lra.
   Qed.
 
   Lemma b_ddof_ge_1 : (1 <= b_ddof m)%Z.
-  Proof. unfold m, baseline. cbn [b_ddof]. apply ddof_ge_1. Qed.
+  Proof. unfold m, baseline_p. cbn [b_ddof]. apply ddof_ge_1. Qed.
 
   Lemma b_n_length : b_n m = Z.of_nat (length d).
   Proof. reflexivity. Qed.
@@ -392,7 +393,7 @@ Section Baseline.
   Proof. split; reflexivity. Qed.
 
   Lemma sse_nonneg : 0 <= b_sse m.
-  Proof. unfold m, baseline. cbn [b_sse column c_sum_sq]. apply sum_sq_nonneg. Qed.
+  Proof. unfold m, baseline_p. cbn [b_sse column c_sum_sq]. apply sum_sq_nonneg. Qed.
 
   Lemma mse_nonneg : 0 <= b_mse m.
   Proof.
@@ -410,7 +411,7 @@ Section Baseline.
   Lemma abs_mbe_le_mae : Qabs (b_mbe m) <= b_mae m.
   Proof.
     pose proof (abs_mean_le (residuals_of d) residuals_ne) as H.
-    unfold m, baseline. cbn [b_mbe b_mae column c_mean]. rewrite Qred_correct.
+    unfold m, baseline_p. cbn [b_mbe b_mae column c_mean]. rewrite Qred_correct.
     rewrite qlen_res in H. exact H.
   Qed.
 
@@ -418,7 +419,7 @@ Section Baseline.
   Lemma mae_sq_le_mse_b : b_mae m * b_mae m <= b_mse m.
   Proof.
     pose proof (mae_sq_le_mse (residuals_of d) residuals_ne) as H.
-    unfold m, baseline. cbn [b_mae b_mse column c_sum_sq]. rewrite !Qred_correct.
+    unfold m, baseline_p. cbn [b_mae b_mse column c_sum_sq]. rewrite !Qred_correct.
     rewrite qlen_res in H. exact H.
   Qed.
 
@@ -433,14 +434,14 @@ Section Baseline.
   (* 0 <= r^2 <= 1 *)
   Lemma r2_bounds : forall r, b_r2 m = Some r -> 0 <= r /\ r <= 1.
   Proof.
-    intros r H. unfold m, baseline in H. cbn [b_r2] in H.
+    intros r H. unfold m, baseline_p in H. cbn [b_r2] in H.
     destruct (pearson (predicted_of d) (observed_of d)) as [[neg r2]|] eqn:E; [|discriminate].
     injection H as <-. eapply pearson_bounds; [|exact E].
     unfold predicted_of, observed_of. rewrite !map_length. reflexivity.
   Qed.
 
   Lemma rho_bounds : forall neg r2, b_rho m = Some (neg, r2) -> 0 <= r2 /\ r2 <= 1.
-  Proof. intros neg r2 H. unfold m, baseline in H. cbn [b_rho] in H. eapply autocorr_bounds. exact H. Qed.
+  Proof. intros neg r2 H. unfold m, baseline_p in H. cbn [b_rho] in H. eapply autocorr_bounds. exact H. Qed.
 End Baseline.
 
 (* ------------------------------------------------------------------ _safe_divide *)
@@ -680,46 +681,46 @@ Qed.
 (* the code's verdict is the statement's verdict whenever each ratio is either over a safely positive
    denominator or reported as undefined *)
 Lemma hourly_gate_partial : forall d p mn tcv tpn, 0 <= mn ->
-  let m := baseline d p mn in
+  let m := baseline_p AsCoded d p mn in
   (mn < c_mean (b_obs m) \/ b_cvrmse_adj m = Undef) ->
   (mn < c_iqr (b_obs m) \/ b_pnrmse_adj m = Undef) ->
   hourly_disqualified m tcv tpn = hourly_disqualified_spec m mn tcv tpn.
 Proof.
   intros d p mn tcv tpn Hmn m H1 H2. unfold hourly_disqualified, hourly_acceptable, hourly_disqualified_spec.
   f_equal. f_equal.
-  - unfold m, baseline in *. cbn [b_cvrmse_adj b_rmse_adj_sq b_obs] in *.
+  - unfold m, baseline_p in *. cbn [b_cvrmse_adj b_rmse_adj_sq b_obs sdiv_root] in *.
     destruct H1 as [H1|H1]; [apply root_below_safe; assumption|apply root_below_undef; exact H1].
-  - unfold m, baseline in *. cbn [b_pnrmse_adj b_rmse_adj_sq b_obs] in *.
+  - unfold m, baseline_p in *. cbn [b_pnrmse_adj b_rmse_adj_sq b_obs sdiv_root] in *.
     destruct H2 as [H2|H2]; [apply root_below_safe; assumption|apply root_below_undef; exact H2].
 Qed.
 
 (* ------------------------------------------------------------------ the statements of Properties/C16.v *)
 
-Lemma n_mse_sse_l : forall d p mn, d <> [] ->
-  let m := baseline d p mn in
+Lemma n_mse_sse_l : forall pl d p mn, d <> [] ->
+  let m := baseline_p pl d p mn in
   b_n m = Z.of_nat (length d) /\ inject_Z (b_n m) * b_mse m == b_sse m /\ b_rmse m = Root false (b_mse m).
 Proof.
-  intros d p mn H m. split; [reflexivity|]. split; [apply n_mse_sse; exact H|reflexivity].
+  intros pl d p mn H m. split; [reflexivity|]. split; [apply n_mse_sse; exact H|reflexivity].
 Qed.
 
-Lemma ddof_rmse_adj_l : forall d p mn, d <> [] ->
-  let m := baseline d p mn in
+Lemma ddof_rmse_adj_l : forall pl d p mn, d <> [] ->
+  let m := baseline_p pl d p mn in
   b_ddof m = Z.max 1 (b_n m - p) /\ (1 <= b_ddof m)%Z /\
   inject_Z (b_ddof m) * b_rmse_adj_sq m == b_sse m /\ b_rmse_adj m = Root false (b_rmse_adj_sq m).
 Proof.
-  intros d p mn H m. split; [apply ddof_spec|]. split; [apply b_ddof_ge_1|].
+  intros pl d p mn H m. split; [apply ddof_spec|]. split; [apply b_ddof_ge_1|].
   split; [apply ddof_rmse_adj_sse; exact H|reflexivity].
 Qed.
 
-Lemma nonneg_l : forall d p mn, d <> [] ->
-  0 <= b_sse (baseline d p mn) /\ 0 <= b_mse (baseline d p mn) /\ 0 <= b_mae (baseline d p mn).
+Lemma nonneg_l : forall pl d p mn, d <> [] ->
+  0 <= b_sse (baseline_p pl d p mn) /\ 0 <= b_mse (baseline_p pl d p mn) /\ 0 <= b_mae (baseline_p pl d p mn).
 Proof.
-  intros d p mn H. split; [apply sse_nonneg|]. split; [apply mse_nonneg; exact H|apply mae_nonneg; exact H].
+  intros pl d p mn H. split; [apply sse_nonneg|]. split; [apply mse_nonneg; exact H|apply mae_nonneg; exact H].
 Qed.
 
-Lemma bias_mae_rmse_l : forall d p mn, d <> [] ->
-  let m := baseline d p mn in Qabs (b_mbe m) <= b_mae m /\ b_mae m * b_mae m <= b_mse m.
-Proof. intros d p mn H m. split; [apply abs_mbe_le_mae; exact H|apply mae_sq_le_mse_b; exact H]. Qed.
+Lemma bias_mae_rmse_l : forall pl d p mn, d <> [] ->
+  let m := baseline_p pl d p mn in Qabs (b_mbe m) <= b_mae m /\ b_mae m * b_mae m <= b_mse m.
+Proof. intros pl d p mn H m. split; [apply abs_mbe_le_mae; exact H|apply mae_sq_le_mse_b; exact H]. Qed.
 
 Lemma variance_identity_l : forall l, l <> [] ->
   c_var (column l) == c_sum_sq (column l) / qlen l - c_mean (column l) * c_mean (column l) /\
@@ -728,13 +729,26 @@ Proof.
   intros l H. split; [apply variance_alt; exact H|]. split; [apply variance_nonneg|reflexivity].
 Qed.
 
-Lemma cvrmse_times_mean_l : forall d p mn neg s,
-  let m := baseline d p mn in
+Lemma safe_divide_root_spec_defined : forall msq den mn neg s,
+  safe_divide_root_spec msq den mn = Root neg s ->
+  ~ den == 0 /\ s * (den * den) == msq /\ neg = Qltb den 0 /\ mn < den.
+Proof.
+  intros msq den mn neg s H. unfold safe_divide_root_spec in H.
+  destruct (Qle_bool den mn) eqn:E; [discriminate|]. apply Qle_bool_false in E.
+  unfold root_div in H. destruct (Qeq_bool den 0) eqn:Z.
+  - destruct (Qeq_bool msq 0); discriminate.
+  - injection H as <- <-. apply Qeq_bool_false in Z. split; [exact Z|].
+    split; [rewrite Qred_correct; unfold sqr; field; exact Z|]. split; [reflexivity|exact E].
+Qed.
+
+Lemma cvrmse_times_mean_l : forall pl d p mn neg s,
+  let m := baseline_p pl d p mn in
   b_cvrmse m = Root neg s ->
   s * (c_mean (b_obs m) * c_mean (b_obs m)) == b_mse m /\ neg = Qltb (c_mean (b_obs m)) 0 /\ ~ c_mean (b_obs m) == 0.
 Proof.
-  intros d p mn neg s m H. unfold m, baseline in H. cbn [b_cvrmse] in H.
-  apply safe_divide_root_defined in H. destruct H as [A [B [C _]]]. split; [exact B|]. split; [exact C|exact A].
+  intros pl d p mn neg s m H. unfold m, baseline_p in H. cbn [b_cvrmse] in H. destruct pl; cbn [sdiv_root] in H.
+  - apply safe_divide_root_defined in H. destruct H as [A [B [C _]]]. split; [exact B|]. split; [exact C|exact A].
+  - apply safe_divide_root_spec_defined in H. destruct H as [A [B [C _]]]. split; [exact B|]. split; [exact C|exact A].
 Qed.
 
 Definition mn_default : Q := 1 # 1000.
@@ -751,10 +765,10 @@ Lemma cvrmse_undefined_partial_l : forall d p mn, d <> [] -> 0 <= mn ->
   let m := baseline d p mn in
   c_mean (b_obs m) <= mn -> (b_cvrmse m = Undef <-> 10 * mn * (10 * mn) < b_mse m).
 Proof.
-  intros d p mn Hd Hmn m Hm. unfold m, baseline. cbn [b_cvrmse b_obs b_mse].
+  intros d p mn Hd Hmn m Hm. unfold m, baseline, baseline_p. cbn [b_cvrmse b_obs b_mse sdiv_root].
   rewrite safe_divide_root_undef_iff.
-  pose proof (mse_nonneg d p mn Hd) as Hmse. unfold baseline in Hmse. cbn [b_mse] in Hmse.
-  rewrite root_gtb_true by exact Hmse. unfold m, baseline in Hm. cbn [b_obs] in Hm.
+  pose proof (mse_nonneg AsCoded d p mn Hd) as Hmse. unfold baseline_p in Hmse. cbn [b_mse] in Hmse.
+  rewrite root_gtb_true by exact Hmse. unfold m, baseline, baseline_p in Hm. cbn [b_obs] in Hm.
   split.
   - intros [_ [F|F]]; [lra|exact F].
   - intros F. split; [exact Hm|right; exact F].
@@ -783,3 +797,38 @@ Lemma savings_l : forall rows,
   r_predicted_sum r == rsum (predicted_of (finite_pairs rows)) /\
   r_n r = Z.of_nat (length (finite_pairs rows)).
 Proof. intros rows r. split; [apply savings_eq|apply reporting_sums]. Qed.
+
+(* ------------------------------------------------------------------ the repaired policy satisfies the full statement *)
+
+Lemma sdiv_repaired_statement : forall num den mn, sdiv Repaired num den mn = safe_divide_spec num den mn.
+Proof. reflexivity. Qed.
+
+Lemma repaired_unsafe_undefined : forall d p mn,
+  let m := baseline_p Repaired d p mn in
+  (c_mean (b_obs m) <= mn ->
+     b_nmae m = Undef /\ b_nmbe m = Undef /\ b_cvrmse m = Undef /\ b_cvrmse_adj m = Undef) /\
+  (c_iqr (b_obs m) <= mn ->
+     b_pnmae m = Undef /\ b_pnmbe m = Undef /\ b_pnrmse m = Undef /\ b_pnrmse_adj m = Undef).
+Proof.
+  intros d p mn m. unfold m, baseline_p. cbn [b_nmae b_nmbe b_cvrmse b_cvrmse_adj b_pnmae b_pnmbe b_pnrmse b_pnrmse_adj b_obs sdiv sdiv_root].
+  unfold safe_divide_spec, safe_divide_root_spec.
+  split; intros H; apply Qle_bool_iff in H; rewrite H; cbn [ratio_val]; repeat split; reflexivity.
+Qed.
+
+Lemma root_below_spec : forall msq den mn t, 0 <= mn ->
+  negb (is_undef (safe_divide_root_spec msq den mn)) && val_ltb (safe_divide_root_spec msq den mn) t = stmt_below msq den mn t.
+Proof.
+  intros msq den mn t Hmn. unfold safe_divide_root_spec. destruct (Qle_bool den mn) eqn:E.
+  - cbn [is_undef negb andb]. unfold stmt_below. apply Qle_bool_iff in E.
+    assert (F : Qltb mn den = false) by (apply Qltb_false; exact E). rewrite F. reflexivity.
+  - apply Qle_bool_false in E. pose proof (root_below_safe msq den mn t Hmn E) as R.
+    unfold safe_divide_root in R. assert (E1 : Qle_bool den mn = false) by (apply Qle_bool_false; exact E).
+    rewrite E1 in R. cbn [andb] in R. exact R.
+Qed.
+
+Lemma hourly_gate_repaired : forall d p mn tcv tpn, 0 <= mn ->
+  hourly_disqualified (baseline_p Repaired d p mn) tcv tpn = hourly_disqualified_spec (baseline_p Repaired d p mn) mn tcv tpn.
+Proof.
+  intros d p mn tcv tpn Hmn. unfold hourly_disqualified, hourly_acceptable, hourly_disqualified_spec.
+  f_equal. f_equal; unfold baseline_p; cbn [b_cvrmse_adj b_pnrmse_adj b_rmse_adj_sq b_obs sdiv_root]; apply root_below_spec; exact Hmn.
+Qed.
